@@ -128,14 +128,23 @@ def check(fx, rep, tier):
     for m, ps in F.exprs(root, "Match"):
         if any(a is rl for a, _ in ps):
             continue
+        if not any(F.pat_variants(a["pat"]) == {(TE, "Equal")} for a in m["arms"]):
+            continue
+        # the arms an Equal expression can reach, in order: Equal arms and catch-alls, up to the first unguarded one
+        reach_eq = []
         for a in m["arms"]:
             pv = F.pat_variants(a["pat"])
-            if pv == {(TE, "Equal")}:
-                names = [c["method"] for c, _ in forest_calls(a["body"])]
-                others = [x for x in m["arms"] if x is not a]
-                other_names = [c["method"] for x in others for c, _ in forest_calls(x["body"])]
-                if names == ["union"] and "add_data" in other_names and "union" not in other_names:
-                    setup_ok = True
+            if pv is None or (TE, "Equal") in pv:
+                reach_eq.append(a)
+                if "guard" not in a:
+                    break
+        eq_names = [c["method"] for a in reach_eq for c, _ in forest_calls(a["body"])]
+        all_names = [c["method"] for a in m["arms"] for c, _ in forest_calls(a["body"])]
+        union_arm = next((a for a in reach_eq if F.pat_variants(a["pat"]) == {(TE, "Equal")} and [c["method"] for c, _ in forest_calls(a["body"])] == ["union"]), None)
+        union_unconditional = union_arm is not None and not any(x.get("k") in ("If", "Match") and not x.get("exp") for x, _ in F.walk(union_arm["body"]))
+        others_union = any(c["method"] == "union" for a in m["arms"] if (F.pat_variants(a["pat"]) or set()) and (TE, "Equal") not in F.pat_variants(a["pat"]) for c, _ in forest_calls(a["body"]))
+        if union_unconditional and "add_data" not in eq_names and "add_data" in all_names and not others_union:
+            setup_ok = True
     rep.oblige(setup_ok, "R14.2", "equal-becomes-union", F.loc(uni["span"]), "equality judgements are not turned into unions (and only unions) before the rounds start: an Equal expression can reach merge, which panics on it", sample={"rule": "R14.2", "setup": "Equal => union, _ => add_data"})
     # nothing in merge / unifier constructs TE::Equal
     for b in (mm.fn, uni):
